@@ -50,7 +50,7 @@ def in_coq_subset(c, casefile, per_op=3, max_args=120):
     """replay a few small ToyHash cases inside Coq with vm_compute (no extraction involved)"""
     picked, seen = [], {}
     for lineno, op, args, res in parse_case_lines(casefile):
-        if op in ("kcap", "kprove", "kverify"):      # Keccak ops: judged by the Python oracle only
+        if op in ("kcap", "kprove", "kverify", "deepprove"):      # Keccak ops and deep trees: judged by the oracle only
             continue
         if not args or args[0] != "1" and op not in ("compress",):
             continue
